@@ -89,6 +89,7 @@ def t_cleanup(ctx):
             # the implementation reads an attribute the stub history entries do not model: this kernel is not encodable on
             # this tree (never a violation); the real-event kernel k.cleanup_real still decides the clauses
             ctx.rec('K', not_encodable=str(ex)[:120])
+            ctx.witness('NOT-ENCODABLE k.cleanup: ' + str(ex)[:100])
             ctx.witness('evicted')
             return
         raise
@@ -133,6 +134,7 @@ def t_dispatch_step(ctx):
 
     ctx.run(main())
     if 'not_encodable' in out:
+        ctx.witness('NOT-ENCODABLE k.dispatch_step: ' + out['not_encodable'][:100])
         ctx.rec('K', not_encodable=out['not_encodable'])
         return
     hist = out['hist']
